@@ -34,7 +34,7 @@ vars == <<fvars, tvars>>
 
 Tr == Traces[ti]
 L == Len(Tr.stream)
-NoOb == [t |-> "end", cls |-> "", lib |-> TRUE, raw |-> << >>, pk |-> "none"]
+NoOb == [t |-> "end", cls |-> "", lib |-> TRUE, raw |-> << >>, pk |-> "none", anycls |-> FALSE]
 Peek == IF k <= Len(Tr.ob) THEN Tr.ob[k] ELSE NoOb
 
 DecoderErrors == {"RTCMTypeError", "RTCMMessageError"}
@@ -57,7 +57,7 @@ OutcomeFor(raw) ==
 \* does the specification's observable equal the recorded one?
 Same(o, p) ==
   /\ o.ev = p.t
-  /\ (o.ev \in {"handler", "raise"} => o.cls = p.cls /\ p.lib)
+  /\ (o.ev \in {"handler", "raise"} => (o.cls = p.cls \/ p.anycls) /\ p.lib)
   /\ (o.ev = "ret" => o.raw = p.raw /\ o.pk = p.pk)
 
 Load(t) ==
